@@ -32,7 +32,6 @@ import (
 	styp "github.com/google/gce-tcb-verifier/sign/types"
 	"github.com/google/gce-tcb-verifier/tdx"
 	"github.com/google/gce-tcb-verifier/timeproto"
-	"google.golang.org/protobuf/proto"
 )
 
 // ErrNoContext is returned when a function requires an endorse.Context is needed but is missing
@@ -169,7 +168,7 @@ func SignDoc(ctx context.Context, doc *epb.VMGoldenMeasurement) (*epb.VMLaunchEn
 	doc.Cert = cert
 	doc.CaBundle = caBundle
 	doc.Timestamp = timeproto.To(ec.Timestamp)
-	toSign, err := proto.Marshal(doc)
+	toSign, err := marshalDoc(doc)
 	if err != nil {
 		return nil, fmt.Errorf("could not serialize golden measurement: %w", err)
 	}
